@@ -15,14 +15,11 @@ def run(run):
     if not L.build(run):
         return
     quick = run.tier == "quick"
-    fams = [("c11", 150 if quick else 3000, run.seed), ("c11dup", 6 if quick else 30, run.seed + 1),
+    fams = [("corpus:corpus/C11/duplicate-entry-names.jsonl", 0, 0), ("c11", 400 if quick else 6000, run.seed),
+            ("c11dup", 6 if quick else 30, run.seed + 1),
             ("c10", 60 if quick else 600, run.seed + 2)]
     results, cover, summary, scripts, traces = L.run_families(run, fams)
     cnt = L.classify(run, "C11", results, scripts, traces)
-    dup_seen = any(int(r["c11"]) != 0 for r in results if r["family"] == "c11dup")
-    if not dup_seen and any(f["key"] == "duplicate-entry-names" for f in run.findings):
-        run.notes.append("known finding duplicate-entry-names was NOT exhibited by the implementation in this run: "
-                         "the entry is stale; switch the model to fix_c11 = true")
     sa, mism = L.check_a(run, ["-mode", "membership", "-len", 4])
     for line in mism[:50]:
         run.violation("corr-membership:" + "/".join(t.split("=")[1] for t in line.split()[2:4]),
